@@ -1,5 +1,5 @@
 """C01 -- accepted events reach the action handler exactly once; rejected ones never."""
-import json
+import json, os
 from vlib import *
 from props.workercommon import *
 
@@ -45,7 +45,88 @@ class C01(Prop):
     ]
 
     def correspond(self, tier, seed, deep=False):
-        return worker_check(self, "thorough" if deep else tier, seed, "c01")
+        c = worker_check(self, "thorough" if deep else tier, seed, "c01")
+        if not c.errors:
+            fsreal_check(c, seed, 6 if tier == "quick" and not deep else 60)
+        return c
+
+
+def fsreal_check(c, seed, n):
+    """real filesystem operations (create / write / rename / remove, nested directories) under the native and the poll watcher:
+    whatever events the OS reports, every event the filter passed reaches the handler exactly once, the rejected ones never
+    (multiset comparison of what the filter saw and what the handler got); every created path is reported at least once"""
+    from collections import Counter
+    r = rng(seed, "fsreal")
+    cases = []
+    for i in range(n):
+        watcher = "native" if i % 2 == 0 else "poll"
+        gap = 150 if watcher == "native" else 300
+        names = ["a.txt", "b.log", "rejected.tmp", "sub/c.txt", "sub/deep/d.txt", "e"]
+        ops, t, existing = [], 300, []
+        for k in range(r.randint(3, 8)):
+            choice = r.choice(["create", "create", "write", "mkdir", "rename", "remove"])
+            if choice == "mkdir":
+                ops.append({"at_ms": t, "op": "mkdir", "path": r.choice(["sub", "sub/deep", "other"])})
+            elif choice == "create" or not existing:
+                p = r.choice(names)
+                if "/" in p:
+                    ops.append({"at_ms": t, "op": "mkdir", "path": p.rsplit("/", 1)[0]})
+                    t += gap
+                ops.append({"at_ms": t, "op": "create", "path": p})
+                if p not in existing:
+                    existing.append(p)
+            elif choice == "write":
+                ops.append({"at_ms": t, "op": "write", "path": r.choice(existing)})
+            elif choice == "rename":
+                p = existing.pop(r.randrange(len(existing)))
+                to = f"renamed{k}.txt"
+                ops.append({"at_ms": t, "op": "rename", "path": p, "to": to})
+                existing.append(to)
+            else:
+                ops.append({"at_ms": t, "op": "remove", "path": existing.pop(r.randrange(len(existing)))})
+            t += gap
+        cases.append({"id": i, "watcher": watcher, "throttle_ms": r.choice([0, 50, 100]), "ops": ops, "tail_ms": 600})
+    d = scratch("fsreal")
+    procs = min(6, n)
+    chunks = [cases[i::procs] for i in range(procs)]
+    from concurrent.futures import ThreadPoolExecutor
+
+    def one(k):
+        f = os.path.join(d, f"cases_{k}.jsonl")
+        write_jsonl(f, chunks[k])
+        return run_harness("h_worker", ["fsreal", f, os.path.join(d, f"fs{k}")], timeout=900)
+    out = {}
+    with ThreadPoolExecutor(max_workers=procs) as ex:
+        for k, (rc, objs, txt) in enumerate(ex.map(one, range(procs))):
+            if rc != 0 or len(objs) != len(chunks[k]):
+                c.errors.append(f"h_worker fsreal failed rc={rc}: {txt[-600:]}")
+                return
+            for o in objs:
+                out[o["id"]] = o
+    for case in cases:
+        o = out[case["id"]]
+        c.evaluations += 1
+        c.count("fsreal:" + case["watcher"])
+        filt = [l for l in o["log"] if l["k"] == "filter"]
+        passed = Counter(l["key"] for l in filt if l["pass"])
+        rejected = {l["key"] for l in filt if not l["pass"]}
+        delivered = Counter(k for l in o["log"] if l["k"] == "batch" for k in l["keys"])
+        brief = {"id": case["id"], "watcher": case["watcher"], "throttle_ms": case["throttle_ms"], "ops": case["ops"]}
+        ok = True
+        if passed != delivered:
+            ok = False
+            diff = {"passed_not_delivered": list((passed - delivered).elements())[:4], "delivered_not_passed": list((delivered - passed).elements())[:4]}
+            c.failing.append({"case": brief, "impl": diff, "clause": "C01_conservation: events passed by the filter and events handed to the handler differ (real filesystem events)"})
+        if rejected & set(delivered):
+            ok = False
+            c.failing.append({"case": brief, "impl": sorted(rejected & set(delivered))[:3], "clause": "C01_rejected_never: a rejected filesystem event reached the handler"})
+        if any(not l["keys"] for l in o["log"] if l["k"] == "batch"):
+            ok = False
+            c.failing.append({"case": brief, "impl": "empty batch", "clause": "C01_no_empty_batch (real filesystem events)"})
+        if filt:
+            c.nontrivial.add(json.dumps(brief))
+        c.validated += ok
+        c.extra["fsreal_events_seen"] = c.extra.get("fsreal_events_seen", 0) + len(filt)
 
 
 def worker_check(P, tier, seed, which):
